@@ -818,6 +818,11 @@ class Dict(dict, base.Symbolic, pg_typing.CustomTyping):
     self.rebind(
         updates, raise_on_no_change=False, skip_notification=True)
 
+  def __ior__(self, other) -> 'Dict':  # pytype: disable=signature-mismatch
+    """In-place union with the semantics of `update`."""
+    self.update(other)
+    return self
+
   def sym_jsonify(
       self,
       hide_frozen: bool = True,
